@@ -154,6 +154,11 @@ func (c *Cluster) serve(sc *Conn) {
 	}
 	seen := map[uint32]bool{}
 	for {
+		c.mu.Lock()
+		for st := c.Servers[sc.Addr]; st != nil && st.Stall && !c.stopped && sc.closedBy == "" && !sc.Pair.ClientClosed(); {
+			c.cond.Wait()
+		}
+		c.mu.Unlock()
 		req, err := wire.ReadRequest(conn)
 		if err != nil {
 			c.mu.Lock()
